@@ -2,7 +2,7 @@
    (FilterIgnoredPaths, the Rego helpers through OPA, linter.Lint) and what gobwas/glob says
    (the oracle table) as data; these functions run the model of Model/Exclude.v on the same inputs
    with the table as glob engine and list the cases that differ.  No theorems here. *)
-From Regal Require Export Model.Exclude.
+From Regal Require Export Model.Exclude Model.ExcludeWalk.
 From Coq Require Import FMapPositive Uint63.
 
 (* ------------------------------------------------------------------ helpers *)
@@ -440,5 +440,68 @@ Definition rd_wcase : rd wcase :=
 Definition lsp_report (data : list (list int)) : N * list N :=
   match rd_list rd_wcase (unpack data) with
   | Some (cs, _) => (N.of_nat (length cs), lsp_failures cs 0)
+  | None => (0, decode_error)
+  end.
+
+(* ------------------------------------------------------------------ directory arguments (walk layer)
+   The case carries the argument as spelled, the tree it denotes, the prefix, the ignore lists and the
+   observation.  The model walks the tree itself (Model/Discover.v [walk] with the pinned constants) and
+   filters (Model/ExcludeWalk.v [go_walk_filter]); nothing of the file list comes from the harness. *)
+
+Record tcase := {
+  tc_l : lcase;                         (* lc_files is not used: the model walks [tc_tree] *)
+  tc_arg : str;
+  tc_tree : node;
+  tc_filter : bool;                     (* true: direct FilterIgnoredPaths call, [tc_kept] is its result *)
+  tc_kept : option (list str) }.
+
+Definition tc_files (c : tcase) : list str :=
+  walk spec_skips spec_ext (tc_arg c) (os_basename (tc_arg c)) (tc_tree c).
+
+Definition with_files (l : lcase) (fs : list str) : lcase :=
+  {| lc_prefix := lc_prefix l; lc_files := fs; lc_cli := lc_cli l; lc_cfg := lc_cfg l;
+     lc_ign_builtin := lc_ign_builtin l; lc_ign_custom := lc_ign_custom l; lc_ign_agg := lc_ign_agg l;
+     lc_cols := lc_cols l; lc_table := lc_table l; lc_err := lc_err l; lc_scanned := lc_scanned l;
+     lc_hit_builtin := lc_hit_builtin l; lc_hit_custom := lc_hit_custom l; lc_hit_agg := lc_hit_agg l |}.
+
+(* filter mode: 1 error/no error, 7 kept list (in order), 9 table; other modes: the codes of lint_codes *)
+Definition walk_codes (c : tcase) : list N :=
+  let l := with_files (tc_l c) (tc_files c) in
+  if tc_filter c then
+    let t := lc_table l in
+    if negb (tbl_covers t (lc_cols l) (lc_cli l ++ (match lc_cfg l with Some x => x | None => [] end))
+                        (map (fun f => go_rel f (lc_prefix l)) (lc_files l)))
+    then [9] else
+    match go_walk_filter (tbl_ok t) (tbl_match t) spec_skips spec_ext (tc_arg c) (os_basename (tc_arg c))
+                         (tc_tree c) (go_select (lc_cli l) (lc_cfg l)) (lc_prefix l), tc_kept c with
+    | None, None => []
+    | Some k, Some k' => if list_str_eqb k k' then [] else [7]
+    | _, _ => [1]
+    end
+  else lint_codes l.
+
+Fixpoint walk_failures (cases : list tcase) (i : N) : list N :=
+  match cases with
+  | [] => []
+  | c :: cases' => map (fun code => i * 10000 + code) (walk_codes c) ++ walk_failures cases' (i + 1)
+  end.
+
+(* node = u8 tag (0 file, 1 directory) + for a directory the list of (name, node), in ReadDir order *)
+Fixpoint rd_node (fuel : nat) : rd node :=
+  match fuel with
+  | O => fun _ => None
+  | S fuel' =>
+      t <- rd_u8 ;;
+      if N.eqb t 0 then ret File
+      else (cs <- rd_list (nm <- rd_str ;; c <- rd_node fuel' ;; ret (nm, c)) ;; ret (Dir cs))
+  end.
+
+Definition rd_tcase : rd tcase :=
+  l <- rd_lcase ;; arg <- rd_str ;; t <- rd_node 40 ;; fm <- rd_bool ;; kept <- rd_opt (rd_list rd_str) ;;
+  ret {| tc_l := l; tc_arg := arg; tc_tree := t; tc_filter := fm; tc_kept := kept |}.
+
+Definition walk_report (data : list (list int)) : N * list N :=
+  match rd_list rd_tcase (unpack data) with
+  | Some (cs, _) => (N.of_nat (length cs), walk_failures cs 0)
   | None => (0, decode_error)
   end.
